@@ -706,10 +706,13 @@ class DateTime(datetime.datetime, Date):
         """
         Remove timedelta duration from the instance.
         """
-        if isinstance(delta, pendulum.Duration):
+        if isinstance(delta, pendulum.Interval):
             return self.subtract(
                 years=delta.years, months=delta.months, seconds=delta._total
             )
+        elif isinstance(delta, pendulum.Duration):
+            # Same path as ``self + (-delta)``: days and weeks follow the wall clock
+            return self._add_timedelta_(-delta)
 
         return self.subtract(seconds=delta.total_seconds())
 
